@@ -164,7 +164,8 @@ Print Assumptions C13_forward_extensions.
    (with or without a kernel receive timestamp at the forwarder, kinds srv, srv.fwdnots):
    the options of a forwarded packet, timestamp options aside, are exactly the options of
    the received packet when its end-to-end extension directly follows the SCION header
-   (otherwise none), and the forwarded packet parses. *)
+   (otherwise none), the forwarded packet parses, and traffic class and flow id are the
+   received packet's. *)
 Theorem C13_srv_fwdext_oracle_holds_on_model : forall mac reverse fetch_key ntp_handle socks sender k nok c q oob,
   C13_srv_fwdext_ok (s_local_port c) q
     (srv_obs mac socks sender k nok (server_step mac reverse fetch_key ntp_handle c q oob)) = true.
